@@ -359,6 +359,20 @@ func (b base) apply(m map[string]string, d dev) (mustFail bool, path, val string
 			return true, "", "", true
 		}
 		return false, a.path, a.def, true
+	case "inline-broken":
+		// the plugin's sub-tree as an inline expression with a syntax error: Refresh must fail
+		ps := strings.SplitN(a.k, ".", 3)
+		if len(ps) < 3 || ps[2] != "type" {
+			return false, "", "", false
+		}
+		prefix := ps[0] + "." + ps[1]
+		for k := range m {
+			if strings.HasPrefix(k, prefix+".") {
+				delete(m, k)
+			}
+		}
+		m[prefix+"!"] = a.v + d.Val
+		return true, "", "", true
 	case "inline":
 		// rewrite the whole sub-tree of this attribute's plugin (appender.X / logger.X) as X! = Type{...}
 		ps := strings.SplitN(a.k, ".", 3)
@@ -486,6 +500,11 @@ func c15Devs(b base) []dev {
 	for i, a := range b.attrs {
 		for _, k := range []string{"respell-kebab", "respell-snake", "prop-present", "prop-absent", "remove", "alt", "inline", "subkey"} {
 			out = append(out, dev{Kind: k, Attr: i})
+		}
+		if strings.HasSuffix(a.k, ".type") && strings.Count(a.k, ".") == 2 {
+			for _, broken := range []string{"{", "{a=1}}", "{a=1} x", "{a='1'}", "{a=1 @}", "{a=}", "{=1}", "{a=1,,}"} {
+				out = append(out, dev{Kind: "inline-broken", Attr: i, Val: broken})
+			}
 		}
 		if a.str {
 			for _, sv := range []string{"{}", "[]", "<nil>", "a b", "a=b,c"} {
